@@ -101,6 +101,16 @@ pub fn run(ctx: &Ctx) -> CheckOutput {
                     JobOut { stats: st, viols: sink.take(), samples: vec![json!({"explorer":"TREE","scalar":"Q","view":spec.name(),"alphabet":alpha,"depth":depth})] }
                 }));
             }
+            // f32: the same generic code at the third scalar
+            if n <= 5 {
+                let spec = spec.clone();
+                jobs.push(Box::new(move || {
+                    let mut st = Stats::default();
+                    let sink = Sink::new();
+                    ref_tree::<f32>("C02", &spec, &Z5, (n + 3).min(6), &mut st, &sink, &|h, hf, v, out| oracle::<f32>(kind, n, h, hf, v, out));
+                    JobOut { stats: st, viols: sink.take(), samples: vec![] }
+                }));
+            }
             // (b) f64, CLOSURE
             let mut alphas = vec![Z5.to_vec()];
             if !quick {
